@@ -23,7 +23,11 @@ def main():
     checks = [prop]
     if "--checks" in sys.argv:
         checks = sys.argv[sys.argv.index("--checks") + 1].split(",")
-    wt = "/tmp/mut/%s" % prop
+    phase = sys.argv[sys.argv.index("--phase") + 1] if "--phase" in sys.argv else "all"
+    wt = os.path.dirname(os.path.dirname(md))  # <root>/<PROP>/OUT/mN -> <root>/<PROP>
+    cj = os.path.join(md, "confirm.json")
+    if phase == "detect":
+        return detect(prop, md, sid, checks, json.load(open(cj)))
     head = sh("git -C /repo rev-parse HEAD")[1].strip()
     sh("git checkout -q -- . ; git clean -fdq -e OUT -e target; git checkout -q --detach %s" % head, cwd=wt)
     patch = os.path.join(md, "patch.diff")
@@ -31,7 +35,7 @@ def main():
     if rc != 0:
         print("PATCH DOES NOT APPLY on HEAD: %s" % out[-300:])
         return 1
-    demos = [f for f in os.listdir(md) if f.startswith("demo")]
+    demos = sorted(f for f in os.listdir(md) if f.startswith("demo") and (f.endswith(".rs") or f.endswith(".py")))
     ran = []
     kind = "rust"
     demo = demos[0]
@@ -51,6 +55,7 @@ def main():
         if "lightmotif_tfmpvalue" in text or "lightmotif-tfmpvalue/" in open(patch).read():
             crate = "lightmotif-tfmpvalue"
         feat = "--features verif-hooks" if ("verif_force_backend" in text and crate == "lightmotif") else ""
+        os.makedirs(os.path.join(wt, crate, "tests"), exist_ok=True)
         shutil.copy(os.path.join(md, demo), os.path.join(wt, crate, "tests", demo))
         name = demo[:-3]
         if asan:
@@ -70,10 +75,27 @@ def main():
     sh("git checkout -q -- . ; git clean -fdq -e OUT -e target", cwd=wt)
     demo_ok = (r0[0] == 0 and r1[0] != 0)
     suite_ok = passed >= 94 and failed == ["dispatch::argmax_f32", "dispatch::scanner_max", "generic::argmax_f32", "sse2::argmax_f32"]
-    print("demo without change: exit %s; with change: exit %s; suite: %d passed, failed %s" % (r0[0], r1[0], passed, failed))
+    print("%s: demo without change: exit %s; with change: exit %s; suite: %d passed, failed %s" % (sid, r0[0], r1[0], passed, failed))
+    conf = dict(head=head, demos=demos, notes=notes, r0=r0[0], r1=r1[0], demo_cmd=(r1[2] if len(r1) > 2 else "python demo (see notes.md)"), passed=passed, failed=failed, confirmed=bool(demo_ok and suite_ok))
+    json.dump(conf, open(cj, "w"))
     if not (demo_ok and suite_ok):
-        print("NOT CONFIRMED")
+        print("%s: NOT CONFIRMED" % sid)
+        if not demo_ok:
+            print((r0[1][-600:] if r0[0] != 0 else r1[1][-600:]))
         return 1
+    if phase == "confirm":
+        return 0
+    return detect(prop, md, sid, checks, conf)
+
+
+def detect(prop, md, sid, checks, conf):
+    if not conf.get("confirmed"):
+        print("%s: not confirmed, skipped" % sid)
+        return 1
+    patch = os.path.join(md, "patch.diff")
+    head, demos, notes = conf["head"], conf["demos"], conf["notes"]
+    passed, failed = conf["passed"], conf["failed"]
+    r0, r1 = (conf["r0"],), (conf["r1"], "", conf["demo_cmd"])
     # run the checks against /repo with the change applied
     if sh("git -C /repo status --porcelain --untracked-files=no")[1].strip():
         print("/repo not clean")
